@@ -1,5 +1,5 @@
 import KyupyVerif.Proofs.SubstSem9
-import KyupyVerif.Proofs.RemoveLine7
+import KyupyVerif.Proofs.RemoveLine9
 /-! Helper lemmas for C10: the certificate for the circuit `substituteCore` builds (before dangling logic is removed) under
 `noIgnoredB` / `implOKB`, and `substitute` = that circuit with dangling logic removed, embedded into it. -/
 namespace KV.Transform
@@ -67,12 +67,14 @@ theorem substituteCore_cert' (h m : NNet) (c : Nat) (hw : WF h) (mw : WF m) (hc 
   exact ⟨sh, dn, substituteCore_cert h c m sh dn hw mw hc (by simpa using hio) hcf hs hd k1 k2 k3 k4 hni h5 map dang he⟩
 
 /-- `substitute` = the circuit `substituteCore` builds with dangling logic removed; it embeds into that circuit -/
-theorem substitute_removing (h m h' : NNet) (c : Nat) (hw : WF h) (mw : WF m) (hc : c < h.net.nodes.size)
+theorem substitute_removing {α : Type _} (z : α) (neg : α → α) (prim : String → α → α → α → α → α)
+    (h m h' : NNet) (c : Nat) (hw : WF h) (mw : WF m) (hc : c < h.net.nodes.size)
     (hio : h.net.io.contains c = false) (hcf : (h.net.node c).isFork = false)
     (hr : noIgnoredB h c m = true) (hok : implOKB m = true) (he : substitute h c m = some h') :
     ∃ h5 map dang sh dn r, substituteCore h c m = some (h5, map, dang) ∧ SubstCert h c m sh dn map h5 ∧
       WFm h' ∧ Emb h5 h' r ∧
-      ∀ j, j < h5.net.nodes.size → isSeqKind (h5.net.node j).kind = true → ∃ j', j' < h'.net.nodes.size ∧ r.node j' = j := by
+      (∀ j, j < h5.net.nodes.size → isSeqKind (h5.net.node j).kind = true → ∃ j', j' < h'.net.nodes.size ∧ r.node j' = j) ∧
+      Ext z neg prim h5 h' r := by
   unfold substitute at he
   split at he
   · exact absurd he (by simp)
@@ -82,8 +84,8 @@ theorem substitute_removing (h m h' : NNet) (c : Nat) (hw : WF h) (mw : WF m) (h
       intro x hx
       obtain ⟨k, hk⟩ := mem_map_values map x hx
       exact ct.mapLt k x hk
-    obtain ⟨w', r, e, sq⟩ := removeDangling_emb _ h5 _ dang h' ct.wf'.toWFm ho he
-    exact ⟨h5, map, dang, sh, dn, r, hcore, ct, w', e, sq⟩
+    obtain ⟨w', r, e, sq, ex⟩ := removeDangling_ext z neg prim _ h5 _ dang h' ct.wf'.toWFm ho he
+    exact ⟨h5, map, dang, sh, dn, r, hcore, ct, w', e, sq, ex⟩
 
 end KV.Transform
 
